@@ -15,6 +15,21 @@ def gen_plan(rng, tier, config, opts):
     k = rng.choice([2, 2, 3, 3, 4])
     same = rng.chance(0.4)
     curve = rng.choice(ctxsim.CURVES)
+    if rng.chance(0.12):
+        # first calls of the process: a brand-new executor, two to four threads that make the same kind of call for the
+        # first time in the process at (almost) the same moment, a seeded lag of up to a few hundred blocks apart -
+        # whatever is built lazily on first use without synchronisation is built twice, one build under the other's use
+        k = rng.choice([2, 2, 3, 4])
+        first = rng.choice(['W_STR %d' % rng.choice([61, 62, 62, 59, 40, 14, rng.below(1000)]), 'W_STR %d' % rng.choice([61, 62, 62, 33]),
+                            'W_HASH %d' % rng.below(1000), 'W_MAP m%d' % rng.below(1000), 'W_ECDSA', 'W_SSS', 'W_PSI', 'W_ECIES'])
+        cv = curve if curve != 'BN_P256' else 'NIST_P256'
+        lines.append('# fresh-process')
+        for t in range(k):
+            steps = ['RESEED ' + rng.bytes(8).hex(), 'EPSET ' + cv, first, first, 'W_STR %d' % rng.below(1000), 'CLRERR', 'PROBE 1']
+            lines += ['THREAD %d %s' % (t, s) for s in steps]
+        lines.append('SEG 0 %d' % rng.choice([1, 5, 20, 60, 150, 300, 600, rng.randint(1, 1000)]))
+        lines.append('RR %d %d %d' % (rng.choice([100000, 250000]), rng.choice([1, 1, 2, 3, 6]), rng.below(1 << 30)))
+        return '\n'.join(lines) + '\n'
     lockstep = rng.chance(0.15)
     if lockstep:
         # two or three threads run the *same* short script of protocol work in slices of a few basic blocks each,
